@@ -122,6 +122,7 @@ pub fn main(table: &[Entry]) {
     let obs_path = m.get("obslog").cloned();
     let only = m.get("only").cloned();
     let replay_input = m.get("input").map(|h| unhex(h));
+    let case_index: Option<usize> = m.get("case-index").map(|s| s.parse().unwrap());
     let cap: usize = m.get("cap").map(|s| s.parse().unwrap()).unwrap_or(if thorough { 60_000 } else { 6_000 });
     let config = crate::config_name();
 
@@ -190,7 +191,18 @@ pub fn main(table: &[Entry]) {
                 for (ci, input) in set.inputs.iter().enumerate() {
                     let trace = ci % 4 == 0 || replay_input.is_some();
                     let opts = Opts { partial: false, trace, budget: true, max_items: input.len() + 3 };
+                    if let Some(k) = case_index {
+                        // identify one case of the deterministic case order (used to turn a cross-config
+                        // observation mismatch into a self-contained witness)
+                        if cases != k {
+                            cases += 1;
+                            continue;
+                        }
+                    }
                     let out = run_entry(e, input, ci % 3, &opts);
+                    if case_index.is_some() {
+                        println!("CASE {}", json!({"def": e.name, "input_hex": hex(input), "input_text": String::from_utf8_lossy(input), "config": config, "observed": show_out(&out), "source": def.render()}));
+                    }
                     cases += 1;
                     let oh = obs_hash(&out);
                     obs.extend_from_slice(&oh.to_le_bytes());
